@@ -430,12 +430,13 @@ def rule_p5_producer(f, R):
             if isinstance(sub, ast.Subscript) and isinstance(sub.slice, ast.Tuple) and len(sub.slice.elts) == 2:
                 col = sub.slice.elts[1]
                 colnames = {x.id for x in ast.walk(col) if isinstance(x, ast.Name)}
-                if not colnames:
-                    continue
                 # find the enumerate loop that binds the angmom element
                 a0 = tup.elts[0]
                 okc = False
+                in_letter_loop = False
                 for loop in enclosing_stmt_chain(fn, tup if isinstance(n, ast.Assign) else n):
+                    if isinstance(loop, ast.For) and isinstance(loop.iter, ast.Call) and dotted(loop.iter.func) == "enumerate":
+                        in_letter_loop = True
                     if isinstance(loop, ast.For) and isinstance(loop.iter, ast.Call) and dotted(loop.iter.func) == "enumerate" \
                             and isinstance(loop.target, ast.Tuple) and len(loop.target.elts) == 2:
                         idx, item = loop.target.elts
@@ -447,6 +448,8 @@ def rule_p5_producer(f, R):
                                        and col.step is None)
                             else:
                                 okc = ast.unparse(col) == idx.id
+                if not in_letter_loop:
+                    continue  # a single-letter record: the whole coefficient table belongs to it
                 R.check(okc, "P5", f.site, ast.unparse(sub),
                         "the coefficient column stored with a letter is not the column at that letter's position",
                         where=f.where(sub), expected="column index = enumerate index of the letter", found=ast.unparse(col))
